@@ -9,7 +9,7 @@
     carries nothing more; only the second case can return an error (C14_failed_write_is_strict_prefix). *)
 From Coq Require Import List NArith ZArith Lia.
 From Vivid Require Import Codec.Prim Remoting.Frame Remoting.FrameProofs Remoting.Link Remoting.LinkProofs
-  Remoting.LinkPeers Remoting.LinkPeersProofs.
+  Remoting.LinkPeers Remoting.LinkPeersProofs Remoting.FrameRoute Remoting.Accept Remoting.AcceptProofs.
 Import ListNotations.
 Local Open Scope N_scope.
 
@@ -108,6 +108,35 @@ Theorem C14_undecodable_continues :
     delivered (receive dec chunks) = decodable dec (accepted bodies).
 Proof. exact (@receive_mixed). Qed.
 
+(** ... AND NEITHER DOES A FRAME THAT DECODES BUT CANNOT BE HANDED TO ANYBODY.  [routable d] = System.HandleRemotingEnvelop
+    returned nil for the decoded envelope d (actor.NewRef accepted the sender and the receiver strings; an absent sender
+    is written as two empty strings and rejected; so are a bad port, a bare IP, a receiver path without '/').  Such a
+    frame is "received" and reaches no mailbox; the reader is re-armed as after every frame.  Any stream of well-formed
+    frames, any chunking: local mailboxes get exactly the bodies of accepted size that decode and can be routed, in order. *)
+Theorem C14_unroutable_continues :
+  forall (D : Type) (dec : bytes -> option D) (routable : D -> bool) (bodies chunks : list bytes),
+    Forall (fun b => 1 <= N.of_nat (length b) < 4294967296) bodies ->
+    concat chunks = concat (map frame bodies) ->
+    receive dec chunks = map (on_frame dec) bodies ++ [REof] /\
+    handed routable (receive dec chunks) = filter routable (decodable dec (accepted bodies)).
+Proof. exact (@unroutable_continues). Qed.
+
+(** m1 .. | BAD | m3 ..: the mailboxes get exactly what they would have got had the unroutable frame not been sent *)
+Theorem C14_unroutable_frame_is_skipped :
+  forall (D : Type) (dec : bytes -> option D) (routable : D -> bool) (pre : list bytes) (bad : bytes) (post chunks : list bytes) (d : D),
+    Forall (fun b => 1 <= N.of_nat (length b) < 4294967296) (pre ++ bad :: post) ->
+    dec bad = Some d -> routable d = false ->
+    concat chunks = concat (map frame (pre ++ bad :: post)) ->
+    handed routable (receive dec chunks) =
+    filter routable (decodable dec (accepted pre)) ++ filter routable (decodable dec (accepted post)).
+Proof. exact (@unroutable_frame_is_skipped). Qed.
+
+Example C14_unroutable_example :
+  let dec := fun b : bytes => Some b in
+  let routable := fun b : bytes => match b with 66 :: _ => false | _ => true end in    (* bodies starting with 'B' cannot be routed *)
+  handed routable (receive dec [[0; 0; 0; 1; 7; 0; 0]; [0; 2; 66; 1; 0; 0; 0; 1; 9]]) = [[7]; [9]].
+Proof. vm_compute. reflexivity. Qed.
+
 (** RECOVERY.  Once the peer is reachable and errors are reported ([fine]): with at least one retry configured a
     message sent from ANY reachable state (healthy connection, connection already cut, none) is delivered exactly
     once after everything delivered before, on a new connection that starts at a frame boundary if need be ... *)
@@ -145,6 +174,45 @@ Proof. exact (@exec_inv). Qed.
 Example C14_recovers_example :
   Inv id_encode [] (@init bytes) /\ fine (ok_conn None) /\ wire_of id_encode [9] = Some (frame [9]).
 Proof. split; [apply Inv_init|]. split; [repeat split|reflexivity]. Qed.
+
+(** RECOVERY, RECEIVING SIDE (model: Remoting/Accept.v, the code since /repo c1a2e19: the reader actor of an accepted
+    connection, registered as "accept-<peer ip:port>", terminates and releases its name at EVERY end of its stream - io.EOF
+    after a plain FIN included; before that repair a FIN-closed connection kept the name for ever and every later
+    connection from the same peer ip:port was accepted but never read: defect C14-accept-name-collision, fixed).
+    Events: [AAccept p n] a connection from p is accepted, shakes hands and is registered (the dialler writes n frames),
+    [AGone p] the kernel's connection is gone (a new one from the same ip:port can be accepted), [AReaderEnd p] the
+    registered reader of p has worked through what was queued for it, seen the end of its stream and is deregistered.
+    [accept_run evs []] lists per accepted connection (peer, frames written, frames read).
+    EVERY ACCEPTED CONNECTION WHOSE PREDECESSOR'S READER HAS ENDED IS READ: for every history [pre] - any set of peer
+    addresses, re-used ones included, FIN, RST, connections that were not read - and every future [post], a connection
+    from p accepted when the last event of p in [pre] among accept / reader-end is not an accept is read completely. *)
+Theorem C14_accepted_connection_read :
+  forall (pre : list aev) (p : bytes) (n : N) (post : list aev),
+    reader_pending p pre false = false ->
+    exists a b, accept_run (pre ++ AAccept p n :: post) [] = a ++ (p, n, n) :: b /\ length a = accepts pre.
+Proof. exact accepted_after_reader_end_is_read. Qed.
+
+(** hence no accepted-but-unread connection in any history in which every connection is accepted after the reader of
+    its predecessor from the same address has ended *)
+Theorem C14_all_accepted_connections_read :
+  forall (evs : list aev), prompt evs [] -> all_read (accept_run evs []).
+Proof. exact prompt_accepts_all_read. Qed.
+
+Example C14_accept_example :
+  prompt [AAccept peerP 3; AGone peerP; AReaderEnd peerP; AAccept peerP 5] [] /\
+  accept_run [AAccept peerP 3; AGone peerP; AReaderEnd peerP; AAccept peerP 5] [] = [(peerP, 3, 3); (peerP, 5, 5)].
+Proof. exact reader_end_first_all_read. Qed.
+
+(** THE RESIDUAL WINDOW (FINDING C14-accept-name-window, reproduced on the repaired code).  [AGone] and [AReaderEnd] are
+    independent: after a RST the kernel accepts a new connection from the same ip:port at once, while the reader actor
+    of the old one may still be busy (user Codec.Decode runs inside it; frames already buffered) and has not seen the end
+    of its stream.  A connection registered in that window finds the name taken and is never read - TCP allows the
+    history ([tcp_ok]), the dialler's handshake succeeds, its writes succeed, nothing reaches a mailbox, no dead letter. *)
+Theorem C14_accepted_before_reader_end_refuted :
+  exists (evs : list aev),
+    tcp_ok evs [] = true /\ ~ all_read (accept_run evs []) /\
+    accept_run evs [] = [(peerP, 3, 3); (peerP, 5, 0)].
+Proof. exact accepted_before_reader_end_unread. Qed.
 
 (** TELL DOES NOT BLOCK THE CALLER: false.  All labels of [try_loop], [LSleep] included, are actions of the
     goroutine that called Tell (Enqueue runs synchronously under connectionLock).  Witness: ReconnectLimit 3, peer
@@ -234,10 +302,15 @@ Print Assumptions C14_dead_letter_after_exhaustion.
 Print Assumptions C14_dead_letter_on_encode_failure.
 Print Assumptions C14_sender_refuses_empty_and_oversize.
 Print Assumptions C14_undecodable_continues.
+Print Assumptions C14_unroutable_continues.
+Print Assumptions C14_unroutable_frame_is_skipped.
 Print Assumptions C14_recovers.
 Print Assumptions C14_recovers_after_reported_failure.
 Print Assumptions C14_failure_drops_connection.
 Print Assumptions C14_reachable_states_satisfy_Inv.
+Print Assumptions C14_accepted_connection_read.
+Print Assumptions C14_all_accepted_connections_read.
+Print Assumptions C14_accepted_before_reader_end_refuted.
 Print Assumptions C14_tell_nonblocking_refuted.
 Print Assumptions C14_tell_nonblocking_partial.
 Print Assumptions C14_enqueue_is_iterated_step.
